@@ -431,6 +431,7 @@ type teletextReader struct {
 	r      io.Reader
 	replay []byte    // what is left to deliver again after a rewind
 	s      io.Seeker // not nil if r can seek
+	start  int64     // position of r when it was handed over: the start of the stream as far as the demuxer is concerned
 }
 
 // readErr returns the read failure, if any. The demuxer takes some of them (io.ErrUnexpectedEOF) for the end of the
@@ -464,7 +465,12 @@ func (r *teletextReader) Read(p []byte) (n int, err error) {
 // Seek rewinds the reader to its start
 func (r *teletextReader) Seek(offset int64, whence int) (int64, error) {
 	if r.s != nil {
-		return r.s.Seek(offset, whence)
+		// The stream starts where the reader was positioned, not at the start of the underlying file
+		if whence == io.SeekStart {
+			offset += r.start
+		}
+		n, err := r.s.Seek(offset, whence)
+		return n - r.start, err
 	}
 	if !r.keep || offset != 0 || whence != io.SeekStart {
 		return 0, errors.New("astisub: teletext reader can't seek")
@@ -482,8 +488,9 @@ func (r *teletextReader) release() {
 func newTeletextReader(r io.Reader) *teletextReader {
 	tr := &teletextReader{r: r}
 	if s, ok := r.(io.Seeker); ok {
-		if _, err := s.Seek(0, io.SeekCurrent); err == nil {
+		if n, err := s.Seek(0, io.SeekCurrent); err == nil {
 			tr.s = s
+			tr.start = n
 		}
 	}
 	tr.keep = tr.s == nil
